@@ -28,6 +28,7 @@ class World:
         self.names = {}  # cat column -> list of level names by code
         self.df = None
         self.scale = {}  # numeric column -> factor by which its abstract (integer) cells are scaled
+        self.sum_cols = {}  # sum-coded derived factor -> code of its omitted (last) level
 
 
 def gen_world(rng, nmin=3, nmax=20, na_rate=0.0, na_cols=(), ordered_prob=0.5, force_levels=True, distinct=0, quarters=False):
@@ -101,6 +102,11 @@ def gen_world(rng, nmin=3, nmax=20, na_rate=0.0, na_cols=(), ordered_prob=0.5, f
     # a call that returns plain strings (not a CategoricalBox): levels must still be sorted
     w.cols["I(h)"] = {"kind": "cat", "v": list(w.cols["h"]["v"]), "decl": []}
     w.names["I(h)"] = list(w.names["h"])
+    # sum-coded spellings of g and h (omitted level = the last one)
+    for dname, src in (("S(h)", "h"), ("C(g, Sum)", "g")):
+        w.cols[dname] = {"kind": "cat", "v": list(w.cols[src]["v"]), "decl": []}
+        w.names[dname] = list(w.names[src])
+        w.sum_cols[dname] = max(w.cols[src]["v"])
     # response: distinct integers
     yv = list(range(10, 10 + 3 * n, 3))
     rng.shuffle(yv)
@@ -125,7 +131,7 @@ def gen_world(rng, nmin=3, nmax=20, na_rate=0.0, na_cols=(), ordered_prob=0.5, f
     return w
 
 
-DERIVED = {"C(k)": ["k"], "I(h)": ["h"], "I(x * 2)": ["x"], "np.abs(x)": ["x"], "I(z + w)": ["z", "w"]}
+DERIVED = {"C(k)": ["k"], "I(h)": ["h"], "S(h)": ["h"], "C(g, Sum)": ["g"], "I(x * 2)": ["x"], "np.abs(x)": ["x"], "I(z + w)": ["z", "w"]}
 
 
 def _set_na(w, df, c, r):
@@ -149,7 +155,8 @@ def _set_na(w, df, c, r):
             w.cols[dname]["v"][r] = 0 if w.cols[dname]["kind"] == "cat" else NA
 
 
-CAT_COMPS = ["f", "g", "h", "o", "C(k)", "I(h)"]
+CAT_COMPS = ["f", "g", "h", "o", "C(k)", "I(h)", "S(h)", "C(g, Sum)"]
+SAME_FACTOR = [{"h", "I(h)", "S(h)"}, {"g", "C(g, Sum)"}]
 NUM_COMPS = ["x", "z", "I(x * 2)", "np.abs(x)", "I(z + w)"]
 
 
@@ -168,8 +175,10 @@ def gen_formula(rng, groups=True, max_terms=4, resp="y", cat_comps=None, num_com
         arity = rng.choice([1, 1, 1, 2, 2, 3])
         ncat = rng.randint(0, min(arity, 2))
         comps = rng.sample(cat_comps, ncat) + rng.sample(num_comps, min(arity - ncat, 2))
-        if "h" in comps and "I(h)" in comps:
-            comps.remove("I(h)")
+        for grp in SAME_FACTOR:  # different spellings of one factor do not go into one term
+            hit = [c for c in comps if c in grp]
+            for c in hit[1:]:
+                comps.remove(c)
         # x-derived numerics are dependent: keep at most one of them per term
         xs = [c for c in comps if c in ("x", "I(x * 2)", "np.abs(x)")]
         for c in xs[1:]:
@@ -263,6 +272,10 @@ def parse_piece(s, w):
     if best is None:
         raise ValueError(f"cannot parse label piece {s!r}")
     lvl = s[len(best) + 1 : -1]
+    if best in w.sum_cols:
+        if lvl == "mean":
+            return [best, 0, "sum", w.sum_cols[best]]
+        return [best, w.names[best].index(lvl) + 1, "sum", w.sum_cols[best]]
     if lvl not in w.names[best]:
         raise ValueError(f"unknown level {lvl!r} in {s!r}")
     return [best, w.names[best].index(lvl) + 1]
@@ -303,9 +316,9 @@ EMPTY = {"labels": [], "data": [], "slices": [], "tcomps": []}
 def _label_factor(label, w, group=False):
     pieces = (label[0] if group else label)
     f = 1
-    for name, lvl in pieces:
-        if lvl == 0:
-            f *= w.scale.get(name, 1)
+    for pc in pieces:
+        if len(pc) == 2 and pc[1] == 0:
+            f *= w.scale.get(pc[0], 1)
     return f
 
 
